@@ -32,7 +32,10 @@ def run(chk):
     chk.assumptions = ["inline script bodies are valid JavaScript (property premise)",
                        "PARTIAL: proved = identifiers (valid, unreserved, distinct), string literals, value expressions and hoisted statements, if-selector statements; "
                        "the statement skeleton of the tag-level generator (arrow functions, var lists, if/else blocks) is covered by the oracle only"]
-    chk.model_tie([("GE.Thm.C02VarName", THM_VARNAME), ("GE.Thm.C04", THM_EXPR), ("GE.Thm.C12", THM_LIT)])
+    chk.model_tie([("GE.Thm.C02VarName", THM_VARNAME), ("GE.Thm.C04", THM_EXPR), ("GE.Thm.C12", THM_LIT),
+                   ("GE.Thm.C02Args", ["GE.ChildArgs.args_cover", "GE.ChildArgs.table_ok_range", "GE.ChildArgs.params_text", "GE.ChildArgs.childLevel_keys"])])
+    from . import childargs
+    childargs.run(chk)
     rng = chk.rng.fork("c02")
     # ---- identifiers ---------------------------------------------------------------------------
     N = 250000 if quick else 5000000
